@@ -299,3 +299,8 @@ mod tests {
         QuickCheck::new().quickcheck(prop as fn(_, _, _) -> _)
     }
 }
+
+#[cfg(kani)]
+pub(crate) mod verif {
+    include!(concat!(env!("LIBP2P_VERIF"), "/hooks/relay_rate_limiter.rs"));
+}
